@@ -37,7 +37,7 @@ def make_op(C, opname, ident):
     return C.operator(opname)
 
 
-def run_op(C, res, opname, ident, shapes, mutable, ctxkind):
+def run_op(C, res, opname, ident, shapes, mutable, ctxkind, fn_behaviour='identity'):
     cons = []
     vals = []
     for i, sh in enumerate(shapes):
@@ -51,7 +51,7 @@ def run_op(C, res, opname, ident, shapes, mutable, ctxkind):
 
     def args(st):
         if ctxkind == 'hashmap':
-            cv = build_context(C, st, variables=[('x', copy_value(xv)), ('s', copy_value(sv))], functions=[('f', 'identity')], disabled=flag)
+            cv = build_context(C, st, variables=[('x', copy_value(xv)), ('s', copy_value(sv))], functions=[('f', fn_behaviour)], disabled=flag)
         else:
             cv = C.empty_context(with_builtins=(ctxkind == 'emptyb'))
         holder['c'] = ref_to(st, cv, mut=mutable)
